@@ -139,6 +139,8 @@ impl MappedAddr for EndpointIdMappedAddr {
         addr[1..6].copy_from_slice(&ADDR_GLOBAL_ID);
         addr[6..8].copy_from_slice(&ENDPOINT_ID_SUBNET);
         rand::rng().fill_bytes(&mut addr[8..16]);
+        #[cfg(iroh_verif)]
+        verif_hooks::override_host_bits(&mut addr);
 
         Self(Ipv6Addr::from(addr))
     }
@@ -200,6 +202,8 @@ impl MappedAddr for RelayMappedAddr {
         addr[1..6].copy_from_slice(&ADDR_GLOBAL_ID);
         addr[6..8].copy_from_slice(&RELAY_MAPPED_SUBNET);
         rand::rng().fill_bytes(&mut addr[8..16]);
+        #[cfg(iroh_verif)]
+        verif_hooks::override_host_bits(&mut addr);
 
         Self(Ipv6Addr::from(addr))
     }
@@ -260,6 +264,8 @@ impl MappedAddr for CustomMappedAddr {
         addr[1..6].copy_from_slice(&ADDR_GLOBAL_ID);
         addr[6..8].copy_from_slice(&CUSTOM_MAPPED_SUBNET);
         rand::rng().fill_bytes(&mut addr[8..16]);
+        #[cfg(iroh_verif)]
+        verif_hooks::override_host_bits(&mut addr);
 
         Self(Ipv6Addr::from(addr))
     }
@@ -371,6 +377,101 @@ impl<K, V> Default for AddrMapInner<K, V> {
         Self {
             addrs: Default::default(),
             lookup: Default::default(),
+        }
+    }
+}
+
+/// Verification hooks, compiled only with `--cfg iroh_verif`.
+#[cfg(iroh_verif)]
+pub mod verif_hooks {
+    use std::{cell::RefCell, collections::VecDeque, net::Ipv6Addr, net::SocketAddr};
+
+    use super::*;
+
+    thread_local! {
+        static CANDIDATES: RefCell<VecDeque<u64>> = const { RefCell::new(VecDeque::new()) };
+    }
+
+    /// Queues host-bit values which the next `generate()` calls on this thread use instead
+    /// of random bits (in order; random again once the queue is empty).
+    pub fn push_candidates(hosts: &[u64]) {
+        CANDIDATES.with(|c| c.borrow_mut().extend(hosts.iter().copied()));
+    }
+
+    /// Number of queued candidates not yet consumed on this thread.
+    pub fn candidates_left() -> usize {
+        CANDIDATES.with(|c| c.borrow().len())
+    }
+
+    /// Drops all queued candidates of this thread.
+    pub fn clear_candidates() {
+        CANDIDATES.with(|c| c.borrow_mut().clear());
+    }
+
+    pub(super) fn override_host_bits(addr: &mut [u8; 16]) {
+        if let Some(h) = CANDIDATES.with(|c| c.borrow_mut().pop_front()) {
+            addr[8..16].copy_from_slice(&h.to_be_bytes());
+        }
+    }
+
+    /// The three kinds of address map, keyed by plain integers.
+    #[derive(Debug, Clone, Default)]
+    pub struct Maps {
+        mixed: AddrMap<u64, EndpointIdMappedAddr>,
+        relay: AddrMap<u64, RelayMappedAddr>,
+        custom: AddrMap<u64, CustomMappedAddr>,
+    }
+
+    /// Which map / which kind of mapped address.
+    #[derive(Debug, Clone, Copy, PartialEq, Eq)]
+    pub enum Kind {
+        /// Endpoint-id ("mixed") mapped addresses.
+        Mixed,
+        /// Relay mapped addresses.
+        Relay,
+        /// Custom-transport mapped addresses.
+        Custom,
+        /// Not a mapped address.
+        Ip,
+    }
+
+    impl Maps {
+        /// `AddrMap::get` on the map of `kind`; returns the mapped socket address.
+        pub fn get(&self, kind: Kind, key: u64) -> SocketAddr {
+            match kind {
+                Kind::Mixed => self.mixed.get(&key).private_socket_addr(),
+                Kind::Relay => self.relay.get(&key).private_socket_addr(),
+                Kind::Custom => self.custom.get(&key).private_socket_addr(),
+                Kind::Ip => unreachable!("no map for plain ip addresses"),
+            }
+        }
+
+        /// `AddrMap::lookup` on the map of `kind`.
+        ///
+        /// Returns `Err(())` if `addr` is not an address of that kind at all.
+        pub fn lookup(&self, kind: Kind, addr: Ipv6Addr) -> Result<Option<u64>, ()> {
+            match kind {
+                Kind::Mixed => EndpointIdMappedAddr::try_from(addr)
+                    .map(|a| self.mixed.lookup(&a))
+                    .map_err(|_| ()),
+                Kind::Relay => RelayMappedAddr::try_from(addr)
+                    .map(|a| self.relay.lookup(&a))
+                    .map_err(|_| ()),
+                Kind::Custom => CustomMappedAddr::try_from(addr)
+                    .map(|a| self.custom.lookup(&a))
+                    .map_err(|_| ()),
+                Kind::Ip => Err(()),
+            }
+        }
+    }
+
+    /// Classification of a socket address by `MultipathMappedAddr::from`.
+    pub fn classify(addr: SocketAddr) -> Kind {
+        match MultipathMappedAddr::from(addr) {
+            MultipathMappedAddr::Mixed(_) => Kind::Mixed,
+            MultipathMappedAddr::Relay(_) => Kind::Relay,
+            MultipathMappedAddr::Ip(_) => Kind::Ip,
+            MultipathMappedAddr::Custom(_) => Kind::Custom,
         }
     }
 }
